@@ -16,6 +16,7 @@ import re
 from . import lib
 from . import esc_lang as L
 from . import esc_rows as R
+from . import esc_lang2 as L2
 from .gen_templates import TGen
 
 RULE = ("K-rows: all built-in filters x call shapes x 2^(string positions) taint combinations (exhaustive); distinct = "
@@ -119,6 +120,11 @@ WRAPPERS = [
     "{%% set r %%}{{ %s }}{%% endset %%}{{ r }}|{{ r ~ a }}",
     "{%% macro f(p) %%}[{{ p }}|{{ %s }}]{%% endmacro %%}{{ f(b) }}{{ f(m) }}",
     "{%% macro f(p) %%}[{{ p }}{{ caller(p) }}]{%% endmacro %%}{%% call(q) f(c) %%}{{ q }}{{ %s }}{%% endcall %%}",
+    "{%% set r | striptags %%}{{ %s }}{%% endset %%}{{ r }}",
+    "{%% set r | join(a) %%}xy{{ %s }}{%% endset %%}{{ r }}",
+    "{%% set r | default(a, true) %%}{%% endset %%}{{ r }}{{ %s }}",
+    "{%% set r | title | trim(b) %%}{{ %s }}{%% endset %%}{{ r }}|{{ r ~ c }}",
+    "{%% set r | upper %%}{{ %s }}{%% endset %%}{{ r }}",
     "{%% filter upper %%}{{ %s }}{%% endfilter %%}",
     "{%% filter striptags %%}{{ %s }}{%% endfilter %%}",
     "{%% filter replace(a, b) %%}{{ %s }}{%% endfilter %%}",
@@ -134,6 +140,27 @@ WRAPPERS = [
 ]
 
 PRELUDE = "{% set m %}{{ a }} o{% endset %}"
+
+# (templates with EXPR placeholder, mode), signature of the finding class
+REGION_SHAPES = [
+    ({"mode": "off", "templates": {"main.html": "{% autoescape true %}{% block b %}{{ EXPR }}{% endblock %}{% endautoescape %}"}},
+     "C15:block-inside-autoescape-region"),
+    ({"mode": "off", "templates": {"main.html": "{% autoescape ae_on %}x{% for i in [1] %}{% block b %}{{ EXPR }}{% endblock %}{% endfor %}{% endautoescape %}"}},
+     "C15:block-inside-autoescape-region"),
+    ({"mode": "off", "templates": {"main.html": "{% extends 'base.html' %}{% block b %}{{ EXPR }}{% endblock %}",
+                                   "base.html": "{% autoescape true %}[{% block b %}{% endblock %}]{% endautoescape %}"}},
+     "C15:overriding-block-rendered-in-parent-region"),
+    ({"mode": "off", "templates": {"main.html": "{% macro f(x) %}{{ x }}{{ EXPR }}{% endmacro %}{% autoescape true %}{{ f(a) }}{% endautoescape %}"}},
+     "C15:macro-compiled-outside-region-called-inside"),
+    ({"mode": "off", "templates": {"main.html": "{% macro f(x) %}{{ x }}{{ caller() }}{% endmacro %}{% autoescape ae_on %}{% call f(a) %}{{ EXPR }}{% endcall %}{% endautoescape %}"}},
+     "C15:macro-compiled-outside-region-called-inside"),
+    ({"mode": "selector", "templates": {"main.html": "{% import 'm.txt' as m %}{{ m.f(a) }}{{ EXPR }}",
+                                        "m.txt": "{% macro f(x) %}{{ x }}{% endmacro %}"}},
+     "C15:macro-imported-from-unescaped-template"),
+    ({"mode": "selector", "templates": {"main.html": "{% from 'm.txt' import f with context %}{% call f(EXPR) %}{{ a }}{% endcall %}",
+                                        "m.txt": "{% macro f(x) %}{{ x }}{{ caller() }}{% endmacro %}"}},
+     "C15:macro-imported-from-unescaped-template"),
+]
 
 
 def run(ctx):
@@ -151,6 +178,7 @@ def run(ctx):
         "by the O-expr stream)",
     ]
     ctx.proof("C15")
+    ctx.proof("C15inc")
 
     # ---------------- K-rows
     rows = []
@@ -256,6 +284,34 @@ def run(ctx):
         else:
             ctx.validated()
 
+    # ---------------- K-sets / O-sets2 (second round): template sets of Model/EscLang2.v
+    cases = []
+    for _ in range(ctx.size(400, 4000)):
+        st, d, dl, g = L2.gen_set(ctx.rng, neutral=False, safe_ok=ctx.rng.random() < 0.2, text=("safe", "meta", "amp"), ae_ops="01f")
+        cases.append((st, ctx.rng.random() < 0.5, d, dl, g.stats))
+    for (st, fl, d, dl, stats), o in zip(cases, ctx.driver("esc2", [L2.render_line(st, fl, d, dl) for st, fl, d, dl, _ in cases])):
+        m = L.parse_render(o)
+        real = L2.real_render(jinja2, st, fl, d, dl)
+        srcs, main = L2.sources(st)
+        nt = bool(m) and any(k.split(":")[0] in ("include", "import", "block", "super", "setblock_filter") for k in stats)
+        ctx.case(key=("ksets", repr(sorted(srcs.items())), repr(d), repr(dl), fl) if nt else None)
+        ctx.count("k_sets")
+        if m != real:
+            ctx.model_mismatch("K-sets EscLang2.render vs Template.render", {"templates": srcs, "main": main, "flag": fl, "data": d, "lists": dl},
+                               m, real, None)
+        else:
+            ctx.validated()
+    for _ in range(ctx.size(400, 4000)):
+        st, d, dl, g = L2.gen_set(ctx.rng, neutral=False, safe_ok=False, text=("safe",), ae_ops="1f", marker=MARK, all_on=True)
+        out = L2.real_render(jinja2, st, True, d, dl)
+        srcs, main = L2.sources(st)
+        account(ctx, "o_sets2", out, ("oS2", repr(sorted(srcs.items())), repr(d), repr(dl)),
+                {"oracle": "O-sets2", "templates": srcs, "data": d})
+        w = judge_output(out)
+        if w:
+            ctx.reject({"kind": "set", "mode": "static", "templates": srcs, "data": dict({f"n{k}": v for k, v in d.items()},
+                        **{f"n{k}": v for k, v in dl.items()}, ae_flag=True)}, w, "C15:template-set-2")
+
     # ---------------- O-T: programs of T inside the hypotheses, three modes
     progs = []
     for i in range(ctx.size(700, 7000)):
@@ -300,7 +356,7 @@ def run(ctx):
         for wi, wsrc in enumerate(WRAPPERS):
             if ctx.tier == "quick" and ctx.rng.random() > 0.34 and wi != 0:
                 continue
-            if "{%% filter" in wsrc and any(x in e for x in ("urlize", "xmlattr", "tojson")):
+            if ("{%% filter" in wsrc or "set r |" in wsrc) and any(x in e for x in ("urlize", "xmlattr", "tojson")):
                 continue      # a filter block would rewrite the documented markup itself
             src = PRELUDE + (wsrc % e)
             data = {n: ctx.rng.choice(words) + MARK for n in "abc"}
@@ -316,6 +372,28 @@ def run(ctx):
                     ctx.reject({"kind": "expr", "mode": mode, "expr": e, "wrapper": wsrc, "templates": {"main.html": src},
                                 "data": data}, w, "C15:expression:" + e)
     ctx.extra["o_expr_renders"] = n_expr
+
+    # ---------------- O-region: enabled regions mixed with code compiled outside them (macros defined
+    # outside a region and called inside, block tags inside a region, overriding blocks rendered in the
+    # parent's region, macros imported from a template that is not autoescaped)
+    for shape, sig in REGION_SHAPES:
+        for _ in range(ctx.size(6, 40)):
+            data = {n: ctx.rng.choice(words) + MARK for n in "abc"}
+            e = ctx.rng.choice(["a", "a ~ b", "a|upper", "[a, b]|join(c)", "a|replace(b, c)", "a|default(b)"])
+            ts = {k: v.replace("EXPR", e) for k, v in shape["templates"].items()}
+            try:
+                if shape["mode"] == "selector":
+                    env = jinja2.Environment(loader=jinja2.DictLoader(ts), autoescape=jinja2.select_autoescape(("html",)))
+                else:
+                    env = jinja2.Environment(loader=jinja2.DictLoader(ts), autoescape=False)
+                out = env.get_template("main.html").render(ae_on=True, **data)
+            except Exception:
+                out = None
+            account(ctx, "o_region", out, ("oR", repr(sorted(ts.items())), repr(data)),
+                    {"oracle": "O-region", "templates": ts, "data": data})
+            w = judge_output(out)
+            if w:
+                ctx.reject({"kind": "region", "mode": shape["mode"], "templates": ts, "data": data}, w, sig)
 
 
 def judge_expr(e, wsrc, out):
@@ -360,6 +438,19 @@ def replay(ctx, data):
         em = R.strip_documented(name, o["emitted"])
         if "<payload" in o["emitted"].lower() or not R.is_clean(em):
             ctx.reject(case, "filter result reaches the output unescaped: " + o["emitted"][:120], "C15:filter-row:" + name)
+    elif case.get("kind") == "region":
+        try:
+            if case["mode"] == "selector":
+                env = jinja2.Environment(loader=jinja2.DictLoader(case["templates"]), autoescape=jinja2.select_autoescape(("html",)))
+            else:
+                env = jinja2.Environment(loader=jinja2.DictLoader(case["templates"]), autoescape=False)
+            out = env.get_template("main.html").render(ae_on=True, **case["data"])
+        except Exception as e:
+            out = None
+        w = judge_output(out)
+        print("output:", repr(out), "\noracle:", w)
+        if w:
+            ctx.reject(case, w, data.get("signature"))
     elif case.get("kind") in ("set", "expr"):
         out = render_mode(jinja2, case["mode"], case["templates"], "main.html", case["data"])
         w = judge_expr(case.get("expr", ""), "", out) if out is not None else None
